@@ -21,7 +21,7 @@ SAFE_PATTERNS = [r'\d+', r'[a-z]+', r'x*', r'(a)(b)?', r'[ab]', r'\w+', r'b?']
 def gen_cfg_grammar(rng):
     """a grammar whose patterns match no whitespace, no dot / skip-to, plus an input-layer configuration given
     partly as directives and partly as parse-time settings"""
-    cfg = G.GenCfg(dots=0.0, skipto=0.0, consts=0.01, ws_patterns=False)
+    cfg = G.GenCfg(dots=0.0, skipto=0.0, consts=0.06, ws_patterns=False)
     g = G.gen_grammar(rng, cfg, depth=rng.choice([2, 3]))
     directives, settings = {}, E.Settings()
 
@@ -142,6 +142,26 @@ def shard(col, shard_i, ngrammars, ninputs):
                 i = rng.randrange(len(lex))
                 lex[i] = rng.choice([lex[i].upper(), lex[i].lower(), lex[i].swapcase(), lex[i].capitalize()])
             texts.append(G.join_lexemes(rng, lex, gaps=(' ', ' ', ' ', ''))[:40])
+        if gi % 5 == 0:
+            # a constant (string or not: `k`, `7`, `True`) between a token and something that does NOT skip whitespace itself
+            cst = rng.choice(['k', '7', 'True', '42', 'hello'])
+            nxt = rng.choice([('pat', r'[a-z]+'), ('pat', r'\d+'), ('call', 'Up'), ('call', '_Up')])
+            tpl = {'rules': [('start', [], ('seq', [('tok', '='), ('named', False, 'cv', ('const', cst)), ('named', False, 'nx', nxt), 'eof'])),
+                             ('Up', [], ('pat', r'[a-z0-9]+')), ('_Up', [], ('pat', r'[a-z0-9]+'))], 'directives': dict(g['directives']), 'keywords': []}
+            for t in ['=abc', '= abc', '=  7', '=7', '=\tabc', '= \n x1', ' = abc ']:
+                cases.append(R.Case(tpl, t, None, settings, tag='base'))
+                metas.append(None)
+            col.count('family.constant-then-no-skip')
+        # parses that START at an upper-case (token) rule: no whitespace is skipped at its entry, also when it is the start rule
+        uppers = [n for n, _, _ in g['rules'] if n.lstrip('_')[:1].isupper()]
+        if uppers and ws != 'off':
+            un = rng.choice(uppers)
+            for _ in range(3):
+                lex = G.sample_sentence(rng, g, dict((n, e) for n, _, e in g['rules'])[un])
+                t = rng.choice(['', ' ', '\n ', '  ']) + G.join_lexemes(rng, lex, gaps=(' ', ''))[:30]
+                cases.append(R.Case(g, t, un, settings, tag='upper-start'))
+                metas.append(None)
+            col.count('start.upper-case-rule')
         for t in texts:
             base = R.Case(g, t, None, settings, tag='base')
             cases.append(base)
@@ -154,7 +174,7 @@ def shard(col, shard_i, ngrammars, ninputs):
     # fix metas: index of the base case for each relaid case
     base_idx = None
     for i, c in enumerate(cases):
-        if c.tag == 'base':
+        if c.tag in ('base', 'upper-start'):
             base_idx = i
             metas[i] = None
         else:
@@ -411,6 +431,10 @@ def main():
             vlib.run_sharded(chk, shard_layer, 14, extra=(1500,))
             vlib.run_sharded(chk, shard_namechars, 14, extra=(150,))
         vlib.run_sharded(chk, shard_api, 1, procs=1)
+        from props.c02 import shard_history
+        vlib.run_sharded(chk, shard_history, 7, extra=((8,) if chk.quick else (80,)))
+        chk.obligation('a reused generated parser forgets the settings of an earlier (failed) call', 'oracle',
+                       not any(v['signature'].startswith('history:') for v in chk.violations))
         chk.obligation('E1 x input configuration: implementation vs model', 'correspondence',
                        not any(v['signature'].startswith('E1input') for v in chk.violations))
         chk.obligation('K1: configuration layering, Grammar/ParserConfig vs Config.v', 'correspondence',
